@@ -39,8 +39,8 @@ fn setup(ctx: &mut Ctx) {
 fn strata(t: Tier) -> Vec<Stratum> {
     vec![
         ex("ident-byte-sweep", scale(t, 28, 28, 4)),
-        st("multi-byte-magic-and-multi-defect", scale(t, 8_000, 400_000, 10)),
-        st("any-vs-fixed-equivalence", scale(t, 4_000, 300_000, 3)),
+        st("multi-byte-magic-and-multi-defect", scale(t, 480_000, 4_800_000, 10)),
+        st("any-vs-fixed-equivalence", scale(t, 240_000, 2_400_000, 3)),
     ]
 }
 
